@@ -404,6 +404,26 @@ theorem initialMesh_ok (negMax : K) (orig : Array (V3 K)) (evec : List (V3 K)) (
           exact ⟨hn, hsz, h0.1, h0.2⟩
     · exact absurd h (by simp)
 
+theorem cloudSupportId_lt (dir : V3 K) (pts : Array (V3 K)) (hn : 0 < pts.size) : cloudSupportId dir pts < pts.size := by
+  unfold cloudSupportId
+  have key : ∀ (l : List Nat) (acc : Nat × K), (∀ i, i ∈ l → i < pts.size) → acc.1 < pts.size →
+      (l.foldl (fun (acc : Nat × K) i => let d := (pAt pts i).dot dir; if acc.2 < d then (i, d) else acc) acc).1 < pts.size := by
+    intro l
+    induction l with
+    | nil => intro acc _ h; exact h
+    | cons a l ih =>
+      intro acc hl h
+      rw [List.foldl_cons]
+      apply ih _ (fun i hi => hl i (by simp [hi]))
+      simp only
+      split
+      · exact hl a (by simp)
+      · exact h
+  exact key _ _ (fun i hi => List.mem_range.mp (List.mem_of_mem_drop hi)) hn
+
+theorem pAt_lt (pts : Array (V3 K)) (i : Nat) (h : i < pts.size) : some (pAt pts i) = pts[i]? := by
+  unfold pAt; simp [h]
+
 /-! ## output -/
 
 theorem validTriangles_ok (n : Nat) (ts : Array (Facet K)) (h : AllOk n ts) (t : T3) (ht : t ∈ (validTriangles ts).toList) :
